@@ -3,7 +3,7 @@
 # 0.2 ms at m=256, 3 ms at m=4096, 50 ms at m=65536.  Counts are frozen case counts (never time budgets).
 
 # cases per (sub, k) in the quick tier: ~2-10 core-seconds per job
-_COUNT = {0: 6000, 1: 12000, 2: 12000, 3: 12000, 4: 12000, 5: 12000, 6: 12000, 7: 12000, 8: 12000,
+_COUNT = {0: 5000, 1: 10000, 2: 10000, 3: 10000, 4: 10000, 5: 10000, 6: 10000, 7: 10000, 8: 10000,
           9: 10000, 10: 8000, 11: 5000, 12: 3000, 13: 1600, 14: 800, 15: 400, 16: 200}
 
 _IMPLS = ["%s_%s_%s" % (lay, d, v) for lay in ("reim", "cplx") for d in ("fft", "ifft") for v in ("ref", "avx2_fma")]
